@@ -22,7 +22,8 @@
 From Coq Require Import List Arith Lia Field Bool.
 From GB Require Import Base.Field Base.FNum Base.Tables Gauss.Moment1D Gauss.SPoly Model.Shell
   Model.MomentInt Model.DiffOp Model.OneElec Model.TwoElec Model.Eval
-  Proofs.MomentIntP Proofs.DiffOpP Proofs.EvalP Proofs.BlockP.
+  Model.Spherical Model.Assembly Model.Overlap Model.OneBody
+  Proofs.MomentIntP Proofs.DiffOpP Proofs.EvalP Proofs.BlockP Proofs.OverlapP.
 Import ListNotations.
 
 Section Rigid.
@@ -911,4 +912,368 @@ Proof.
   - rewrite Ea, Eb. apply dprim_array_swap_yz.
 Qed.
 
+(* ---- Boys-type integrals, at the level of the specification (Gauss/SPoly.v) ----
+   The one-axis factor is the s-polynomial [Pc pa pc v a]; the array entry is Phi_m of it for ANY
+   sequence beta ([V_is_Phi]).  Reflection of the axis (pa, pc -> -pa, -pc) multiplies the
+   polynomial by (-1)^a: seen through every Phi_m (every beta) and through every evaluation. *)
+Theorem Vf_parity pa pc v (beta : nat -> F) : forall a m,
+  Vf K (- pa) (- pc) v beta a m = sg a * Vf K pa pc v beta a m
+  /\ Vf K (- pa) (- pc) v beta (S a) m = sg (S a) * Vf K pa pc v beta (S a) m.
+Proof.
+  induction a as [|a IH]; intros m.
+  - split; [rewrite !Vf_0|rewrite !Vf_1]; unfold sg; cbn [FNum.fpow]; ring.
+  - split; [apply IH|]. rewrite !Vf_SS.
+    destruct (IH m) as [E0 E1]. destruct (IH (S m)) as [E0' E1'].
+    rewrite E0, E1, E0', E1'. rewrite !sg_S. ring.
+Qed.
+
+Theorem Pc_parity_Phi pa pc v (beta : nat -> F) a m :
+  Phi K beta m (Pc K (- pa) (- pc) v a) = sg a * Phi K beta m (Pc K pa pc v a).
+Proof.
+  destruct (V_is_Phi K Kf (- pa) (- pc) v beta a m) as [E1 _].
+  destruct (V_is_Phi K Kf pa pc v beta a m) as [E2 _].
+  rewrite <- E1, <- E2. apply Vf_parity.
+Qed.
+
+Theorem Pc_parity_eval pa pc v a s :
+  peval K (Pc K (- pa) (- pc) v a) s = sg a * peval K (Pc K pa pc v a) s.
+Proof.
+  destruct (Pc_eval K Kf (- pa) (- pc) v a s) as [E1 _].
+  destruct (Pc_eval K Kf pa pc v a s) as [E2 _].
+  rewrite E1, E2. unfold Gs.
+  replace (- pa - s * - pc) with (- (pa - s * pc)) by ring.
+  replace 0 with (- 0) at 1 2 by ring.
+  rewrite S3_parity. cbn [Nat.add]. rewrite Nat.add_0_r. reflexivity.
+Qed.
+
+(* product of s-polynomials; the 3-D quantity is Phi of the product of the per-axis polynomials *)
+Fixpoint pmul (f g : list F) : list F :=
+  match f with
+  | [] => []
+  | c :: f' => Moment1D.padd K (Moment1D.pscale K c g) (0 :: pmul f' g)
+  end.
+
+Lemma peval_pmul f g s : peval K (pmul f g) s = peval K f s * peval K g s.
+Proof.
+  induction f as [|c f IH]; cbn [pmul peval]; [ring|].
+  rewrite (peval_padd K Kf), (peval_pscale K Kf), (peval_shift K Kf), IH. ring.
+Qed.
+
+(* Phi of a product = Phi (for the sequence n |-> Phi_n g) of the first factor *)
+Lemma Phi_pmul_l beta g : forall f m,
+  Phi K beta m (pmul f g) = Phi K (fun n => Phi K beta n g) m f.
+Proof.
+  induction f as [|c f IH]; intros m; cbn [pmul Phi]; [reflexivity|].
+  rewrite (Phi_padd K Kf), (Phi_pscale K Kf), (Phi_shift K Kf), IH. reflexivity.
+Qed.
+
+Lemma Phi_pmul_nil_r beta : forall f m, Phi K beta m (pmul f []) = 0.
+Proof.
+  induction f as [|c f IH]; intros m; cbn [pmul Moment1D.pscale map Moment1D.padd]; [reflexivity|].
+  rewrite (Phi_shift K Kf). apply IH.
+Qed.
+
+Lemma Phi_pmul_cons_r beta : forall f d g m,
+  Phi K beta m (pmul f (d :: g)) = d * Phi K beta m f + Phi K beta (S m) (pmul f g).
+Proof.
+  induction f as [|c f IH]; intros d g m.
+  - cbn [pmul Phi]. ring.
+  - cbn [pmul]. rewrite !(Phi_padd K Kf), !(Phi_pscale K Kf), !(Phi_shift K Kf), IH.
+    cbn [Phi]. ring.
+Qed.
+
+Lemma Phi_ext (b1 b2 : nat -> F) : (forall n, b1 n = b2 n) -> forall f m, Phi K b1 m f = Phi K b2 m f.
+Proof. intros H. induction f as [|c f IH]; intros m; cbn [Phi]; [reflexivity|]. now rewrite H, IH. Qed.
+
+(* the product is symmetric in its factors, seen through every Phi_m *)
+Theorem Phi_pmul_comm beta : forall f g m, Phi K beta m (pmul f g) = Phi K beta m (pmul g f).
+Proof.
+  induction f as [|c f IH]; intros g m.
+  - rewrite Phi_pmul_nil_r. reflexivity.
+  - rewrite Phi_pmul_cons_r. cbn [pmul].
+    rewrite (Phi_padd K Kf), (Phi_pscale K Kf), (Phi_shift K Kf), IH. reflexivity.
+Qed.
+
+(* the specification of the primitive Coulomb-type integral [a|0]^(m): Phi_m of the product of the
+   three per-axis polynomials; each axis has its own (PA, PC) and the common v = 1/(2p) *)
+Definition boys_spec (beta : nat -> F) (v : F) (pa pc : F * F * F) (a : comp) (m : nat) : F :=
+  Phi K beta m (pmul (Pc K (fst (fst pa)) (fst (fst pc)) v (fst (fst a)))
+                     (pmul (Pc K (snd (fst pa)) (snd (fst pc)) v (snd (fst a)))
+                           (Pc K (snd pa) (snd pc) v (snd a)))).
+
+Theorem boys_spec_swap_xy beta v pa pc a m :
+  boys_spec beta v (swap_xy pa) (swap_xy pc) (swap_xy a) m = boys_spec beta v pa pc a m.
+Proof.
+  destruct pa as [[pax pay] paz], pc as [[pcx pcy] pcz], a as [[ax ay] az].
+  unfold boys_spec, swap_xy. cbn [fst snd].
+  set (X := Pc K pax pcx v ax). set (Y := Pc K pay pcy v ay). set (Z := Pc K paz pcz v az).
+  (* Phi_m (Y * (X * Z)) = Phi_m (X * (Y * Z)) *)
+  rewrite (Phi_pmul_comm beta Y (pmul X Z)).
+  rewrite (Phi_pmul_l beta Y (pmul X Z) m), (Phi_pmul_l _ Z X m).
+  rewrite (Phi_pmul_l beta (pmul Y Z) X m).
+  apply Phi_ext. intros n. rewrite (Phi_pmul_comm beta Y Z), (Phi_pmul_l beta Y Z). reflexivity.
+Qed.
+
+Theorem boys_spec_swap_yz beta v pa pc a m :
+  boys_spec beta v (swap_yz pa) (swap_yz pc) (swap_yz a) m = boys_spec beta v pa pc a m.
+Proof.
+  destruct pa as [[pax pay] paz], pc as [[pcx pcy] pcz], a as [[ax ay] az].
+  unfold boys_spec, swap_yz. cbn [fst snd].
+  rewrite !(Phi_pmul_comm beta (Pc K pax pcx v ax)).
+  rewrite !(Phi_pmul_l beta (Pc K pax pcx v ax)).
+  apply Phi_pmul_comm.
+Qed.
+
+(* reflection of the x axis: PA_x, PC_x change sign, the entry picks up (-1)^(a_x) *)
+Theorem boys_spec_reflect_x beta v pa pc a m :
+  boys_spec beta v (- fst (fst pa), snd (fst pa), snd pa) (- fst (fst pc), snd (fst pc), snd pc) a m
+  = sg (fst (fst a)) * boys_spec beta v pa pc a m.
+Proof.
+  unfold boys_spec. cbn [fst snd]. rewrite !Phi_pmul_l. apply Pc_parity_Phi.
+Qed.
+
+(* ================================================================== *)
+(* 4. whole-basis functions under a translation                         *)
+(* ================================================================== *)
+(* contraction norms and the spherical transform of a shell do not see its centre *)
+Lemma norm_cont_shift tx ty tz s : exps_ok s s ->
+  norm_cont K (shift_shell tx ty tz s) = norm_cont K s.
+Proof.
+  intros H. unfold norm_cont. cbv zeta. rewrite overlap_block_shift by exact H. reflexivity.
+Qed.
+
+Section WholeBasis.
+Context {A : Type} (azero : A) (aadd : A -> A -> A) (ascale : F -> A -> A).
+Variables (tx ty tz : F).
+(* the block functions of the moved and of the original system (they may differ: moved origin,
+   moved point charges) *)
+Variables blockf' blockf : shell F -> shell F -> list (list (list (list A))).
+Variable basis : list (shell F).
+Hypothesis Hexp : forall s, In s basis -> exps_ok s s.
+Hypothesis Hblock : forall s1 s2, In s1 basis -> In s2 basis ->
+  blockf' (shift_shell tx ty tz s1) (shift_shell tx ty tz s2) = blockf s1 s2.
+
+Lemma pblock_shift s1 s2 : In s1 basis -> In s2 basis ->
+  pblock K azero aadd ascale blockf' (prep K (shift_shell tx ty tz s1)) (prep K (shift_shell tx ty tz s2))
+  = pblock K azero aadd ascale blockf (prep K s1) (prep K s2).
+Proof.
+  intros H1 H2. unfold pblock, prep. cbn [p_shell p_norm p_T].
+  rewrite !norm_cont_shift by (apply Hexp; assumption).
+  rewrite Hblock by assumption. reflexivity.
+Qed.
+
+Theorem two_symm_integral_shift T :
+  two_symm_integral K azero aadd ascale blockf' (map (shift_shell tx ty tz) basis) T
+  = two_symm_integral K azero aadd ascale blockf basis T.
+Proof.
+  rewrite !two_symm_integral_unfold. cbv zeta. rewrite !map_length.
+  assert (E : two_symm_blocks azero (length basis)
+      (fun i j => pblock K azero aadd ascale blockf'
+         (nth i (map (prep K) (map (shift_shell tx ty tz) basis)) (dummy_p K))
+         (nth j (map (prep K) (map (shift_shell tx ty tz) basis)) (dummy_p K)))
+    = two_symm_blocks azero (length basis)
+      (fun i j => pblock K azero aadd ascale blockf
+         (nth i (map (prep K) basis) (dummy_p K)) (nth j (map (prep K) basis) (dummy_p K)))).
+  { apply two_symm_blocks_ext_le. intros i j Hi Hj _.
+    set (d0 := mkShell F 0 0 0 0 [] [] false [] []).
+    rewrite !map_map.
+    rewrite (nth_map_in _ basis i d0), (nth_map_in _ basis j d0) by assumption.
+    rewrite (nth_map_in (prep K) basis i d0), (nth_map_in (prep K) basis j d0) by assumption.
+    apply pblock_shift; apply nth_In; assumption. }
+  rewrite E. reflexivity.
+Qed.
+End WholeBasis.
+
+Definition basis_ok (basis : list (shell F)) : Prop :=
+  forall s1 s2, In s1 basis -> In s2 basis -> exps_ok s1 s2.
+
+Theorem overlap_integral_shift tx ty tz basis T : basis_ok basis ->
+  overlap_integral K (map (shift_shell tx ty tz) basis) T = overlap_integral K basis T.
+Proof.
+  intros H. unfold overlap_integral. apply two_symm_integral_shift.
+  - intros s Hs. now apply H.
+  - intros s1 s2 H1 H2. apply overlap_block_shift. now apply H.
+Qed.
+
+Theorem kinetic_integral_shift tx ty tz basis T : basis_ok basis ->
+  kinetic_integral K (map (shift_shell tx ty tz) basis) T = kinetic_integral K basis T.
+Proof.
+  intros H. unfold kinetic_integral. apply two_symm_integral_shift.
+  - intros s Hs. now apply H.
+  - intros s1 s2 H1 H2. apply kinetic_block_shift. now apply H.
+Qed.
+
+Theorem moment_integral_shift tx ty tz Cx Cy Cz orders basis T : basis_ok basis ->
+  moment_integral K (Cx + tx) (Cy + ty) (Cz + tz) orders (map (shift_shell tx ty tz) basis) T
+  = moment_integral K Cx Cy Cz orders basis T.
+Proof.
+  intros H. unfold moment_integral. apply two_symm_integral_shift.
+  - intros s Hs. now apply H.
+  - intros s1 s2 H1 H2. apply moment_block_shift. now apply H.
+Qed.
+
+Theorem point_charge_integral_shift tx ty tz points basis T : basis_ok basis ->
+  point_charge_integral K (map (shift_charge tx ty tz) points) (map (shift_shell tx ty tz) basis) T
+  = point_charge_integral K points basis T.
+Proof.
+  intros H. unfold point_charge_integral. apply two_symm_integral_shift.
+  - intros s Hs. now apply H.
+  - intros s1 s2 H1 H2. apply point_charge_block_shift. now apply H.
+Qed.
+
+Theorem nuclear_attraction_integral_shift tx ty tz points basis T : basis_ok basis ->
+  nuclear_attraction_integral K (map (shift_charge tx ty tz) points) (map (shift_shell tx ty tz) basis) T
+  = nuclear_attraction_integral K points basis T.
+Proof. intros H. unfold nuclear_attraction_integral. now rewrite point_charge_integral_shift. Qed.
+
+(* evaluation of the basis functions (and of any derivative) at the moved points *)
+Lemma one_index_rows_shift tabs tx ty tz md pts o (basis : list (shell F)) :
+  (forall s, In s basis -> exps_ok s s) ->
+  map (fun '(p, blk) => shell_rows K tabs (s_sph (p_shell p)) (p_T p) (p_norm p) blk)
+      (map (fun s => (prep_fast K s,
+                      block_with K (md s) (fun c => c) (fexp K) s o (map (shift_point tx ty tz) pts)))
+           (map (shift_shell tx ty tz) basis))
+  = map (fun '(p, blk) => shell_rows K tabs (s_sph (p_shell p)) (p_T p) (p_norm p) blk)
+      (map (fun s => (prep_fast K s, block_with K (md (shift_shell tx ty tz s)) (fun c => c) (fexp K) s o pts))
+           basis).
+Proof.
+  intros H. rewrite !map_map. apply map_ext_in; intros s Hs.
+  unfold prep_fast, norm_cont_diag. cbn [p_shell p_T p_norm].
+  rewrite norm_cont_shift by (now apply H). rewrite block_with_shift. reflexivity.
+Qed.
+
+Theorem evaluate_deriv_basis_shift tx ty tz basis pts o T bk :
+  (forall s, In s basis -> exps_ok s s) ->
+  evaluate_deriv_basis_model K (map (shift_shell tx ty tz) basis) (map (shift_point tx ty tz) pts) o T bk
+  = evaluate_deriv_basis_model K basis pts o T bk.
+Proof.
+  intros H. unfold evaluate_deriv_basis_model. destruct (accepts bk o); [|reflexivity].
+  unfold one_index. cbv zeta.
+  rewrite (one_index_rows_shift (fun x => x) tx ty tz
+             (fun s => mode_of K bk (s_l s) (comps_of s) o) pts o basis H).
+  reflexivity.
+Qed.
+
+Theorem evaluate_basis_shift tx ty tz basis pts T :
+  (forall s, In s basis -> exps_ok s s) ->
+  evaluate_basis_model K (map (shift_shell tx ty tz) basis) (map (shift_point tx ty tz) pts) T
+  = evaluate_basis_model K basis pts T.
+Proof.
+  intros H. unfold evaluate_basis_model, eval_block0, one_index. cbv zeta.
+  rewrite (one_index_rows_shift (fun x => x) tx ty tz
+             (fun s => gen_mode K false (s_l s) (0, 0, 0)%nat) pts (0, 0, 0)%nat basis H).
+  reflexivity.
+Qed.
+
 End Rigid.
+
+
+(* ================================================================== *)
+(* 5. the law for general rotations (STATED, not proved)                *)
+(* ================================================================== *)
+Section FullStatement.
+Context {F : Type} (K : Fops F).
+Local Open Scope F_scope.
+Notation "0" := (f0 K) : F_scope.
+Notation "1" := (f1 K) : F_scope.
+Infix "+" := (fadd K) : F_scope.
+Infix "*" := (fmul K) : F_scope.
+
+Definition vec3 := (F * F * F)%type.
+Definition mat3 := (vec3 * vec3 * vec3)%type.                (* rows *)
+Definition dot3 (u w : vec3) : F :=
+  fst (fst u) * fst (fst w) + snd (fst u) * snd (fst w) + snd u * snd w.
+Definition mrow (R : mat3) (k : nat) : vec3 :=
+  match k with O => fst (fst R) | S O => snd (fst R) | _ => snd R end.
+Definition vget (u : vec3) (k : nat) : F :=
+  match k with O => fst (fst u) | S O => snd (fst u) | _ => snd u end.
+Definition mcol (R : mat3) (k : nat) : vec3 := (vget (mrow R 0) k, vget (mrow R 1) k, vget (mrow R 2) k).
+Definition mapply (R : mat3) (u : vec3) : vec3 := (dot3 (mrow R 0) u, dot3 (mrow R 1) u, dot3 (mrow R 2) u).
+Definition mapply_t (R : mat3) (u : vec3) : vec3 := (dot3 (mcol R 0) u, dot3 (mcol R 1) u, dot3 (mcol R 2) u).
+Definition delta (i j : nat) : F := if Nat.eqb i j then 1 else 0.
+(* proper and improper rotations alike: R R^T = R^T R = 1 *)
+Definition orthogonal (R : mat3) : Prop :=
+  forall i j, (i < 3)%nat -> (j < 3)%nat ->
+    dot3 (mrow R i) (mrow R j) = delta i j /\ dot3 (mcol R i) (mcol R j) = delta i j.
+
+Definition rot_shell (R : mat3) (s : shell F) : shell F :=
+  let c := mapply R (s_x s, s_y s, s_z s) in
+  mkShell F (s_l s) (fst (fst c)) (snd (fst c)) (snd c) (s_exps s) (s_coeffs s)
+          (s_sph s) (s_comps s) (s_labels s).
+
+Definition monomial (u : vec3) (c : comp) : F :=
+  FNum.fpow K (fst (fst u)) (fst (fst c)) * FNum.fpow K (snd (fst u)) (snd (fst c))
+  * FNum.fpow K (snd u) (snd c).
+(* M represents R on the homogeneous polynomials of degree l: (R^T u)^j = sum_i M i j u^i *)
+Definition mono_rep (R : mat3) (l : nat) (M : comp -> comp -> F) : Prop :=
+  forall j, In j (default_comps l) -> forall u,
+    monomial (mapply_t R u) j = FNum.fsum K (map (fun i => M i j * monomial u i) (default_comps l)).
+Definition dfnorm (c : comp) : F :=
+  fsqrt K (fdf_odd K (fst (fst c)) * fdf_odd K (snd (fst c)) * fdf_odd K (snd c)).
+
+(* The overlap block of the rotated pair and of the original pair are related by the
+   representation matrices of the two shells (gbasis' per-component normalisation 1/sqrt((2a-1)!!..)
+   makes the matrices D_ij = M_ij dfnorm(i)/dfnorm(j); written without division).  The same shape of
+   law - one representation matrix per basis index, vector/tensor components rotating with R - is
+   what property C12 demands of every integral and evaluation. *)
+Definition rotation_law_overlap : Prop :=
+  (forall x, fapx K x = x) -> (forall x y, fexp K (x + y) = fexp K x * fexp K y) ->
+  (forall c, dfnorm c <> 0) ->
+  forall R, orthogonal R -> forall la lb, exists Ma Mb : comp -> comp -> F,
+    mono_rep R la Ma /\ mono_rep R lb Mb /\
+    forall sa sb, s_l sa = la -> s_l sb = lb -> s_comps sa = [] -> s_comps sb = [] ->
+      (forall a b, In a (s_exps sa) -> In b (s_exps sb) -> a + b <> 0) ->
+      forall ma mb ja jb, (ma < nseg sa)%nat -> (mb < nseg sb)%nat ->
+        (ja < length (default_comps la))%nat -> (jb < length (default_comps lb))%nat ->
+        let cmp l i := nth i (default_comps l) (0, 0, 0)%nat in
+        dfnorm (cmp la ja) * dfnorm (cmp lb jb)
+          * nth jb (nth mb (nth ja (nth ma (overlap_block K sa sb) []) []) []) 0
+        = FNum.fsum K (map (fun ia => FNum.fsum K (map (fun ib =>
+            Ma (cmp la ia) (cmp la ja) * Mb (cmp lb ib) (cmp lb jb)
+            * dfnorm (cmp la ia) * dfnorm (cmp lb ib)
+            * nth ib (nth mb (nth ia (nth ma
+                 (overlap_block K (rot_shell R sa) (rot_shell R sb)) []) []) []) 0)
+            (seq 0 (length (default_comps lb))))) (seq 0 (length (default_comps la)))).
+End FullStatement.
+
+(* the hypotheses of the theorems above are satisfiable: the executable instance at Qc, two shells
+   with exponents {1, 2} and {3} *)
+Section HypExample.
+Import ZArith QArith Qcanon.
+Definition hypK (opi : Qc) (osqrt oexp oln : Qc -> Qc) (oboys : nat -> Qc -> Qc) : Fops Qc :=
+  QcK true opi osqrt oexp oln oboys.
+Definition hq (n : Z) : Qc := qc_of n 1.
+Definition hyp_shA : shell Qc :=
+  mkShell Qc 1 (hq 0) (hq 1) (hq 2) [hq 1; hq 2] [[hq 1]; [hq 1]] false [] [].
+Definition hyp_shB : shell Qc := mkShell Qc 2 (hq 1) (hq 0) (hq 3) [hq 3] [[hq 1]] true [] [].
+Variables (opi : Qc) (osqrt oexp oln : Qc -> Qc) (oboys : nat -> Qc -> Qc).
+Notation KQ := (hypK opi osqrt oexp oln oboys).
+Notation q := hq.
+Notation shA := hyp_shA.
+Notation shB := hyp_shB.
+
+Lemma qc_neq (x y : Qc) : Qeq_bool x y = false -> x <> y.
+Proof. intros H E. subst y. rewrite Qeq_bool_refl in H. discriminate. Qed.
+
+Lemma hyp_example :
+  is_field KQ /\ fadd KQ (f1 KQ) (f1 KQ) <> f0 KQ /\ (forall x, fapx KQ x = x)
+  /\ basis_ok KQ [shA; shB] /\ exps_ok KQ shA shB /\ psum KQ (q 1) (q 3) <> f0 KQ.
+Proof.
+  split; [apply QcK_field|]. split; [apply qc_neq; vm_compute; reflexivity|].
+  split; [intros x; reflexivity|].
+  assert (Hall : forall a b, In a [q 1; q 2; q 3] -> In b [q 1; q 2; q 3] -> fadd KQ a b <> f0 KQ).
+  { intros a b Ha Hb. cbn [In] in Ha, Hb.
+    destruct Ha as [<-|[<-|[<-|[]]]]; destruct Hb as [<-|[<-|[<-|[]]]];
+      apply qc_neq; vm_compute; reflexivity. }
+  assert (HA : forall a, In a (s_exps shA) -> In a [q 1; q 2; q 3]).
+  { intros a Ha. change (In a [q 1; q 2]) in Ha. destruct Ha as [<-|[<-|[]]]; cbn [In]; tauto. }
+  assert (HB : forall a, In a (s_exps shB) -> In a [q 1; q 2; q 3]).
+  { intros a Ha. change (In a [q 3]) in Ha. destruct Ha as [<-|[]]; cbn [In]; tauto. }
+  split; [|split].
+  - intros s1 s2 H1 H2 a b Ha Hb. apply Hall.
+    + destruct H1 as [<-|[<-|[]]]; [now apply HA|now apply HB].
+    + destruct H2 as [<-|[<-|[]]]; [now apply HA|now apply HB].
+  - intros a b Ha Hb. apply Hall; [now apply HA|now apply HB].
+  - apply qc_neq; vm_compute; reflexivity.
+Qed.
+End HypExample.
